@@ -20,5 +20,5 @@ class GroundWater:
 
         self.water_table = water_table
         self.method = method
-        self.dates = dates
-        self.values = values
+        self.dates = list(dates)
+        self.values = list(values)
